@@ -47,12 +47,36 @@ class C05(Property):
                         cases[-1].tags["twin_word"] = twin
                         cases.append(Case("%sv%d" % (gid, j), opts, base[:posn] + [twin] + base[posn:],
                                           tags={"role": "plainword", "group": gid, "pos": posn}))
+                # a value glued onto a flag (`--all=yes`, `-a=1`): the value is an item of its own that nobody consumes
+                # (one-byte short names only: `-ж=v` is the known finding C02-short-eq-multibyte, a plain word for bpaf)
+                fl = [(i, a) for i, a in enumerate(base[:limit]) if a.startswith(b"-") and b"=" not in a and a != b"--"
+                      and (a.startswith(b"--") or len(a) == 2) and self.is_flag_item(opts, a)]
+                if fl:
+                    i, a = rng.choice(fl)
+                    junk = rng.choice([b"yes", b"1", b"", b"false"])
+                    argv = base[:i] + [a + b"=" + junk] + base[i + 1:]
+                    cases.append(Case(gid + "a", opts, argv, tags={"role": "attached", "group": gid, "item": a + b"=" + junk}))
                 # duplication of one item
                 if base:
                     i = rng.randrange(len(base))
                     argv = base[:i] + [base[i]] + base[i:]
                     cases.append(Case(gid + "d", opts, argv, tags={"role": "dup", "group": gid, "pos": i}))
         return cases
+
+    @staticmethod
+    def is_flag_item(opts, a):
+        """`a` is `--long` or `-c` (one character) and names a flag (not an argument) somewhere in the definition"""
+        try:
+            t = a.decode("utf-8")
+        except UnicodeDecodeError:
+            return False
+        for x in gen.walk(opts):
+            if x["k"] == "flag":
+                if t.startswith("--") and t[2:] in x["n"]["long"]:
+                    return True
+                if not t.startswith("--") and len(t) == 2 and t[1] in x["n"]["short"]:
+                    return True
+        return False
 
     @staticmethod
     def partial_groups(rng, opts, k):
@@ -130,6 +154,14 @@ class C05(Property):
                                            "plain word: with a plain word at the same place the outcome is %s, with it %s "
                                            "(an item delivered to two fields, or split)" % (c.tags["item"], " ".join(twin[:2])[:200],
                                                                                           " ".join(mine[:2])[:200])))
+            elif role == "attached":
+                dist["attached"] = dist.get("attached", 0) + 1
+                ok, base = base_ok.get(c.tags["group"], (False, None))
+                if ok:
+                    nontrivial.append(c.line())
+                    if compare.impl_class(impl.get(c.id)) == "OK":
+                        out.append(Finding("violation", c, "a value was glued onto a flag (%r): nobody can consume it, yet the run "
+                                                           "yields a value: %s" % (c.tags["item"], impl.get(c.id)[1][:300]), related=[base]))
             elif role == "dup":
                 dist["dup"] += 1
             elif role == "partial":
